@@ -30,10 +30,12 @@ def _key(text):
 
 CLAIMED = {
     # pid: (engine, category, text, design_ref, level_note, technique)
-    'C01': _cache('Clauses C01.*: every completed call returns F(args); memory and archives only ever hold F values.', '4 (C01)'),
+    'C01': _cache('Clauses C01.*: every completed call returns F(args) (and returns at all: an operation that blocks for ever is an event); memory and archives only ever hold F values; '
+                  'also on recursive (re-entrant) calls, on arguments whose keys exceed a file name, and - judged by KeyTrace - on the key engine\'s catalogue of signatures, spellings, keymaps, partials, methods and functions sharing a code object.', '4 (C01), 17'),
     'C02': _cache('Clauses C02.*: the stub is evaluated exactly when the key is neither resident nor in the bound archive; '
-                  'a miss stores; ghost set of keys that must stay retrievable while an archive is attached; second instance on the same archive.', '4 (C02)'),
-    'C05': _cache('Clauses C05.*: size after a call <= max(maxsize, size before); maxsize 0/None semantics; purge empties; every spelling of maxsize.', '4 (C05)'),
+                  'a miss stores; ghost set of keys that must stay retrievable while an archive is attached (kept across f.archive(B)); second instance on the same archive; '
+                  'injected archive read faults (no evaluation while the result is archived); recursive calls.', '4 (C02), 17'),
+    'C05': _cache('Clauses C05.*: size after a call <= max(maxsize, size before); maxsize 0/None semantics; purge empties; every spelling of maxsize; recursive (re-entrant) calls, modelled in layer I as Enter/Return with a stack of pending calls.', '4 (C05), 17'),
     'C06': _cache('Clauses C06.*: victims are exactly those of LRU/MRU/LFU/RR computed from ghost recency/frequency; hits keep everything.', '4 (C06)'),
     'C07': _cache('Clauses C07.*: whatever leaves memory is in the archive with its value; archive entries never change; retrievability ghost.', '4 (C07)'),
     'C08': ('store', 'model_checking',
@@ -120,7 +122,7 @@ CLAIMED = {
             'fixing <=3 positionals and <=2 keywords; calls with <=4 positionals and <=3 keywords); no positional-only parameters, '
             'nested partials or builtins',
             'TLA+ transcription of Python binding + signature()/validate(), exhaustive catalogue check by TLC, catalogue replay + trace validation'),
-    'C20': _cache('Clauses C20.*: a dill round trip yields equal contents/statistics/binding; lock-step continuation of original and copy; independence.', '4 (C20)'),
+    'C20': _cache('Clauses C20.*: a dill round trip yields equal contents/statistics/binding - also when the snapshot is taken by another thread while a call is in flight; lock-step continuation of original and copy; every call of a copy is judged like a call of the original (result, evaluations, statistics); independence; a copy that blocks is a violation; chained keymaps and archives with non-default settings.', '4 (C20), 17'),
 }
 
 PENDING = {}
